@@ -178,7 +178,7 @@ UNIT = {
          'replace': r'hoist_aes\1_new(\2)', 'count': '*'},
         {'rule': 'R7', 'regex': r'\.decrypt_padded_mut::<Pkcs7>\((\w+)\)\s*\.map_err\(\|_\|\s*PdfError::DecryptionFailure\)',
          'replace': r'.decrypt_padded_mut_pkcs7(\1)', 'count': '*'},
-        # the same call with the padding left in place (a tree that removes the pad itself, see item `pkcs7 helper`)
+        # the same call with the padding left in place (a tree that removes the pad itself, see item `pkcs7_helper`)
         {'rule': 'R7', 'regex': r'\.decrypt_padded_mut::<NoPadding>\((\w+)\)\s*\.map_err\(\|_\|\s*PdfError::DecryptionFailure\)',
          'replace': r'.decrypt_padded_mut_nopad(\1)', 'count': '*'},
      ]},
@@ -187,7 +187,7 @@ UNIT = {
   # have next to Decoder::decrypt. Contract = `pkcs7_unpad` (RFC 5652 6.3 as referenced by 7.6.2): last byte n, 1 <= n <= 16,
   # n <= len => Ok(first len - n bytes) (n = 16: a whole block of padding, i.e. every plaintext whose length is a multiple of 16);
   # anything else => Err(DecryptionFailure). Pad bytes other than the last: compared or not (TOL_PAD_BYTES_UNCHECKED).
-  'pkcs7 helper': {'kind': 'fn', 'file': F, 'container': None, 'name': _PH_NAME, 'optional': True, 'props': ['C06'],
+  'pkcs7_helper': {'kind': 'fn', 'file': F, 'container': None, 'name': _PH_NAME, 'optional': True, 'props': ['C06'],
      'ensures': [('pkcs7_pad_removed', 'delivers_either(r, pkcs7_unpad(%s, true), pkcs7_unpad(%s, false))' % (_PH_IN, _PH_IN))],
      'rewrites': [
         # R7 / R8 by shape (count '*': whichever of these spellings the helper uses)
